@@ -106,6 +106,16 @@ class History:
                 out.append((t['tid'], t['u'], t['d'], t['e'], self.tlen(t)))
         return out[first:last] if last > first else []
 
+    def undoLogF(self, user, first, last):
+        """the filter selects, first/last index the SELECTED transactions"""
+        out = []
+        for t in self.txns[::-1]:
+            if t['status'] == 'p':
+                break
+            if t['status'] == ' ' and t['u'] == user:
+                out.append((t['tid'], t['u'], t['d'], t['e'], self.tlen(t)))
+        return out[first:last] if last > first else []
+
     def lastInvalidations(self, n):
         ts = self.txns[max(0, len(self.txns) - n):] if n > 0 else []
         return [(t['tid'], [r[0] for r in t['recs']]) for t in ts]
